@@ -91,6 +91,12 @@ func bindable(r prog.Rule) map[string]bool {
 				mark(s.Var)
 			}
 		}
+		if r.Do != nil {
+			// a reducer of a do-transform gives its variable a value (per group)
+			for _, s := range r.Do.Lets {
+				mark(s.Var)
+			}
+		}
 	}
 	return b
 }
@@ -167,7 +173,7 @@ func check(run *stats.Run, f stats.Failer, c Case) verdict {
 	// accepted
 	v.labels = append(v.labels, "accepted")
 	for _, l := range c.Gen.Labels {
-		if strings.HasPrefix(l, "eq-") || l == "let" {
+		if strings.HasPrefix(l, "eq-") || l == "let" || l == "with-do-transform" || l == "agg-builtin-bound-var" {
 			v.labels = append(v.labels, "accepted+"+l)
 		}
 	}
@@ -208,7 +214,8 @@ func check(run *stats.Run, f stats.Failer, c Case) verdict {
 		run.Inconclusive()
 		return v
 	}
-	missing, extraGot := prog.Diff(ref.Model, out.Facts)
+	// aggregated predicates (s...): a collected list is read as a set
+	missing, extraGot := prog.DiffListsAsSets(ref.Model, out.Facts, func(p string) bool { return strings.HasPrefix(p, "s") })
 	if len(missing) > 0 || len(extraGot) > 0 {
 		run.Failf(f, "an accepted program is not evaluated as written (a literal is ignored or mis-ordered).\nmissing: %v\nextra: %v\nprogram:\n%spre-loaded: %s",
 			missing, extraGot, text, atomsText(c.Gen.Extra))
@@ -418,7 +425,14 @@ func addTemplate(t *rapid.T, g *prog.Generated) string {
 }
 
 func genCase(t *rapid.T) Case {
-	g := prog.Gen(prog.AllFeatures).Draw(t, "prog")
+	var g prog.Generated
+	if rapid.IntRange(0, 5).Draw(t, "withAgg") == 0 {
+		// programs with do-transforms: a variable the transform needs must get its value from the body
+		g = prog.GenAgg().Draw(t, "aggProg")
+		g.Labels = append(g.Labels, "with-do-transform")
+	} else {
+		g = prog.Gen(prog.AllFeatures).Draw(t, "prog")
+	}
 	c := Case{Gen: g}
 	if rapid.IntRange(0, 5).Draw(t, "template") == 0 {
 		if name := addTemplate(t, &c.Gen); name != "" {
